@@ -844,6 +844,9 @@ def synthetic_specs(v):
         ("Range", ["start", "limit", "delta"], {"start": T(I64), "limit": T(I64), "delta": T(I64)}, {},
          {"start": np.array(1, dtype=np.int64), "limit": np.array(9, dtype=np.int64), "delta": np.array(2, dtype=np.int64)}),
     ]
+    # a node for which ONNX inference invents more than ten symbolic dimensions (unk__0 .. unk__11): all of them are unknown
+    items.append(("Split", ["input", "split"], {"input": T(F, "N", 4), "split": T(I64, 12)}, {"axis": 0}, {}, [f"out{k}" for k in range(12)]))
+    items.append(("Split", ["input", "split"], {"input": T(F, 4, "M"), "split": T(I64, 13)}, {"axis": 1}, {}, [f"out{k}" for k in range(13)]))
     for red in ("ReduceL1", "ReduceL2", "ReduceLogSum", "ReduceLogSumExp", "ReduceMean", "ReduceSumSquare", "ReduceMax", "ReduceMin", "ReduceProd"):
         items.append((red, ["data"], {"data": T(F, 3, 2, 2)}, {"axes": [1], "keepdims": 1}, {}))
         items.append((red, ["data"], {"data": T(F, 3, 2, 2)}, {"keepdims": 0}, {}))
@@ -851,10 +854,12 @@ def synthetic_specs(v):
                       {"axes": np.array([-1], dtype=np.int64)}))
     out = []
     m = module(v)
-    for idx, (opname, ins, types, attrs, consts) in enumerate(items):
+    for idx, item in enumerate(items):
+        opname, ins, types, attrs, consts = item[:5]
+        outs_ = item[5] if len(item) > 5 else ["out0"]
         if opname not in m._OPERATORS:
             continue
-        node = helper.make_node(opname, ins, ["out0"], **attrs)
+        node = helper.make_node(opname, ins, outs_, **attrs)
         out.append({"v": v, "op": opname, "src": f"synthetic_{idx}_{opname}", "mut": "synthetic", "node": node,
                     "intypes": dict(types), "consts": dict(consts), "const_via": "initializer", "_data": dict(consts)})
     return out
